@@ -24,6 +24,7 @@ import CqlVerif.Drv.Late
 import CqlVerif.Drv.Cfg
 import CqlVerif.Drv.Heal
 import CqlVerif.Drv.Shake
+import CqlVerif.Drv.Ast
 open CqlVerif.Drv
 
 def dispatchStream (stream op real : String) : Verdict :=
@@ -54,6 +55,7 @@ def dispatchStream (stream op real : String) : Verdict :=
   | "cfg" => CfgStream.handle op real
   | "heal" => HealStream.handle op real
   | "shake" => ShakeStream.handle op real
+  | "ast" => AstStream.handle op real
   | _ => { kind := "diff", detail := s!"unknown stream {stream}" }
 
 /-- the harness could not set the case up (no port, no connection): that says nothing about the code -/
